@@ -5,11 +5,11 @@ CONSTANTS
   Denoms = {1, 2}
   Funds <- FundsReal
   Amounts = {0, 1, 2}
-  Months = {1, 24}
+  Months = {0, 1, 24}
   SaleMonths = 24
   Unit = 1000000
   MonthTicks = 4
-  SaleChains = {1, 2}
+  SaleChains = {1, 2, 3}
   Contracts = {1, 2}
 INIT TraceInit
 NEXT TraceNext
